@@ -65,6 +65,27 @@ def _rename_fn(fn: ast.FunctionDef, rename_params: bool):
     _Ren(ren).visit(fn)
 
 
+def _rename_deep(fn: ast.FunctionDef):
+    """Rename every local (also inside nested closures) of a function consistently; parameters keep their names."""
+    params = {a.arg for a in fn.args.args + fn.args.kwonlyargs}
+    stored = set()
+    for x in ast.walk(fn):
+        if isinstance(x, ast.Name) and isinstance(x.ctx, ast.Store):
+            stored.add(x.id)
+        if isinstance(x, ast.arg) and x.arg not in params:
+            stored.add(x.arg)
+        if isinstance(x, ast.FunctionDef) and x is not fn:
+            stored.add(x.name)
+    ren = {n: n + "_r" for n in stored if n not in params}
+    for x in ast.walk(fn):
+        if isinstance(x, ast.Name) and x.id in ren:
+            x.id = ren[x.id]
+        elif isinstance(x, ast.arg) and x.arg in ren:
+            x.arg = ren[x.arg]
+        elif isinstance(x, ast.FunctionDef) and x is not fn and x.name in ren:
+            x.name = ren[x.name]
+
+
 def make_twin(repo: Path, dst: Path, kind: str):
     shutil.copytree(repo / "coco", dst / "coco", ignore=shutil.ignore_patterns("__pycache__", "*.pyc"))
     if kind == "reformat":
@@ -83,6 +104,14 @@ def make_twin(repo: Path, dst: Path, kind: str):
                 elif isinstance(c, ast.FunctionDef) and c.name not in ("convert", "convert_file", "generate", "start", "main"):
                     _rename_fn(c, False)
             p.write_text(ast.unparse(t) + "\n")
+    elif kind == "rename-decoders":
+        for name in ("hrstoppm", "pixtopgm", "maxtoppm", "mgetoppm", "cm3toppm", "rattoppm", "veftopng"):
+            p = dst / "coco" / f"{name}.py"
+            t = ast.parse(p.read_text())
+            for c in t.body:
+                if isinstance(c, ast.FunctionDef) and c.name in ("convert", "unsquash"):
+                    _rename_deep(c)
+            p.write_text(ast.unparse(t) + "\n")
     elif kind == "library-layout":
         p = dst / "coco" / "resources" / "ecb.b09"
         out = []
@@ -100,7 +129,7 @@ def make_twin(repo: Path, dst: Path, kind: str):
         raise ValueError(kind)
 
 
-TWINS = ["reformat", "rename", "library-layout"]
+TWINS = ["reformat", "rename", "rename-decoders", "library-layout"]
 
 
 # ---------------------------------------------------------------------------
